@@ -173,6 +173,15 @@ def check(run):
         sp_ = random_basis(rng, 1, 2, lmax=2)
         one_case(run, sp_, points_for(rng, sp_, 3), o, dt, via_class=(k % 2 == 1), runtime_name=True)
         run.count("back-end name given as a run-time string")
+    # generalized shells with structured coefficient matrices (several segmented contractions stored as one shell: every primitive
+    # in exactly one column; uncontracted sets; a shared primitive) and the other structural families
+    from checks.common import structural_families
+    for k, (lab, sp_, T) in enumerate(structural_families(run, transforms=False)):
+        if "bohr apart" in lab:
+            continue
+        o, dt = [((0, 0, 0), "general"), ((1, 0, 1), "direct"), ((0, 2, 0), "general"), ((2, 1, 0), "direct")][k % 4]
+        one_case(run, sp_, points_for(rng, sp_, 3), o, dt)
+        run.count(lab.split(" (")[0])
     from checks import c09 as _c09
     _c09.positional_arguments_case(run, rng, only=('evaluate_basis', 'evaluate_deriv_basis'))
     batch_independence(run)
